@@ -94,66 +94,6 @@ Definition next (d : dev) (s : pst) : token * pst :=
 
 Definition error_at (s : pst) (t : token) : pst := set_err s (PSyntax t.(tline) t.(tcol)).
 
-Definition expect (d : dev) (k : kind) (s : pst) : token * pst :=
-  let '(tok, s1) := peek d s in
-  if kind_eqb tok.(tkind) k then next d s1 else (tok, error_at s1 tok).
-
-Definition is_kw (tok : token) (v : str) : bool := kind_eqb tok.(tkind) Name && str_eqb tok.(tval) v.
-
-Definition expectKeyword (d : dev) (v : str) (s : pst) : token * pst :=
-  let '(tok, s1) := peek d s in
-  if is_kw tok v then next d s1 else (tok, error_at s1 tok).
-
-Definition skip (d : dev) (k : kind) (s : pst) : bool * pst :=
-  if has_err s then (false, s) else
-  let '(tok, s1) := peek d s in
-  if kind_eqb tok.(tkind) k then (true, snd (next d s1)) else (false, s1).
-
-Definition unexpectedError (d : dev) (s : pst) : pst :=
-  let '(tok, s1) := peek d s in error_at s1 tok.
-
-Definition peekPos (d : dev) (s : pst) : pos * pst :=
-  if has_err s then (pos0, s) else
-  let '(tok, s1) := peek d s in (pos_of_tok (src s) tok, s1).
-
-Definition peek_kind (d : dev) (s : pst) : kind * pst :=
-  let '(tok, s1) := peek d s in (tok.(tkind), s1).
-
-Section Loops.
-  Context {A : Type}.
-  Variable d : dev.
-  Variable cb : pst -> A * pst.
-
-  (* `for p.peek().Kind != end && p.err == nil { cb() }`; returns items, state, whether cb was called *)
-  Fixpoint many_loop (fuel : nat) (endk : kind) (s : pst) (acc : list A) (called : bool)
-    : list A * pst * bool :=
-    match fuel with
-    | O => (rev acc, set_err s PStall, called)
-    | S f =>
-      let '(tok, s1) := peek d s in
-      if negb (kind_eqb tok.(tkind) endk) && negb (has_err s1)
-      then let '(x, s2) := cb s1 in many_loop f endk s2 (x :: acc) true
-      else (rev acc, s1, called)
-    end.
-
-  Definition many (fuel : nat) (startk endk : kind) (s : pst) : list A * pst :=
-    let '(has, s1) := skip d startk s in
-    if negb has then ([], s1) else
-    let '(xs, s2, _) := many_loop fuel endk s1 [] false in
-    (xs, snd (next d s2)).
-
-  Definition some (fuel : nat) (startk endk : kind) (s : pst) : list A * pst :=
-    let '(has, s1) := skip d startk s in
-    if negb has then ([], s1) else
-    let '(xs, s2, called) := many_loop fuel endk s1 [] false in
-    if negb called then
-      let '(tok, s3) := peek d s2 in ([], error_at s3 tok)
-    else (xs, snd (next d s2)).
-End Loops.
-
-Definition parseName (d : dev) (s : pst) : str * pst :=
-  let '(tok, s1) := expect d Name s in (tok.(tval), s1).
-
 (* result of a whole parse *)
 Inductive pres (A : Type) := POk (a : A) | PErr (e : perr).
 Arguments POk {A} a. Arguments PErr {A} e.
